@@ -56,6 +56,7 @@ type Target struct {
 	FailExit int    `json:"fail_exit,omitempty"`
 	FailIf   string `json:"fail_if,omitempty"`
 	SleepMs  int    `json:"sleep_ms,omitempty"`
+	TrapTerm bool   `json:"trap_term,omitempty"` // the target's shell ignores SIGTERM
 	SleepIf  string `json:"sleep_if,omitempty"` // marker: sleep 20 s when present
 	Omit     string `json:"omit,omitempty"`
 	OmitIf   string `json:"omit_if,omitempty"` // marker: do not write outputs when present
@@ -167,6 +168,9 @@ func (t *Target) Command() string {
 		return t.RawCmd
 	}
 	var sb strings.Builder
+	if t.TrapTerm {
+		sb.WriteString("trap '' TERM; ")
+	}
 	sb.WriteString(`"$VCTL" act ` + shq(t.Label()) + " --salt " + shq(t.Salt))
 	if t.FailExit != 0 {
 		fmt.Fprintf(&sb, " --fail %d", t.FailExit)
